@@ -757,8 +757,7 @@ func (e *Env) slice(x *ESlice) Val {
 		return Val{T: "(mk_slice (s_reg " + v.T + ") " + c.idxAdd("(s_off "+v.T+")", lo) + " " + c.idxSub(hi, lo) + " " + c.idxSub("(s_cap "+v.T+")", lo) + ")", Ty: v.Ty}
 	case *types.Basic:
 		if u.Info()&types.IsString != 0 {
-			n := c.idxSub(hi, lo)
-			return Val{T: "(mk_slice (s_reg " + v.T + ") " + c.idxAdd("(s_off "+v.T+")", lo) + " " + n + " " + n + ")", Ty: v.Ty}
+			return Val{T: c.ssub(v.T, lo, hi), Ty: v.Ty}
 		}
 	}
 	e.fail("cannot slice %s", v.Ty)
@@ -959,9 +958,14 @@ func (e *Env) call(x *ECall) Val {
 		// at(s, p): element at ABSOLUTE position p of s's backing region (s[i] == at(s, offset(s)+i)).
 		// Useful as a quantifier trigger that matches element reads made through any sub-slice of the region.
 		a := e.tr(x.Args[0])
+		if b, isB := a.Ty.Underlying().(*types.Basic); isB && b.Info()&types.IsString != 0 {
+			c.declStrings()
+			pv := e.materialize(e.tr(x.Args[1]), intTy)
+			return Val{T: sel(sel("SB", "(s_reg "+a.T+")"), c.toIdx(pv.T, pv.Ty)), Ty: types.Typ[types.Uint8]}
+		}
 		st, ok := a.Ty.Underlying().(*types.Slice)
 		if !ok || isStruct(st.Elem()) {
-			e.fail("at() needs a slice of non-struct elements")
+			e.fail("at() needs a string or a slice of non-struct elements")
 		}
 		pv := e.materialize(e.tr(x.Args[1]), intTy)
 		return Val{T: sel(c.regionArr(e.heap, c.elemsHeap(st.Elem()), "(s_reg "+a.T+")"), c.toIdx(pv.T, pv.Ty)), Ty: st.Elem()}
